@@ -21,12 +21,13 @@ RULE = ("same exhaustively enumerated (<=3 quick / <=4 thorough lines over the 1
         "newline; distinct by content")
 
 
-def evaluate_content(ctl, content):
+def evaluate_content(ctl, content, closed=()):
     P = ctl.P
     old = ctl.subst(content)
     ctl.put(old)
     old_eff = old or b""
-    rc, out, err = ctl.run("disable")
+    # the command may be started without some of its standard descriptors (`snoopyctl ... >&-`): the file must come out the same
+    rc, out, err = ctl.run("disable", closed=closed)
     if rc < 0 or rc in (134, 139):
         raise Failure("snoopyctl disable crashed", {"status": rc, "stderr": err[-1500:]}, key="crash")
     new = ctl.get()
@@ -50,7 +51,7 @@ def evaluate_content(ctl, content):
 def evaluate(env, c):
     if not hasattr(env, "ctl"):
         env.ctl = preload.Ctl(next(iter(env.builds.values())), os.path.join(env.run.dir, "ctl-%d" % os.getpid()))
-    evaluate_content(env.ctl, c["content"])
+    evaluate_content(env.ctl, c["content"], tuple(c.get("closed", ())))
 
 
 def main():
